@@ -502,23 +502,24 @@ class Adjust1(Contract):
         model = make_object('FittedModelStub', attrs=dict(coef_=SArr.from_fn(lambda c: bf(c), (m,), 'real')))
         th = x.th[self.IDX]
         theta_i = SArr.from_fn(lambda j: th(sel(j)), (k,), 'real')          # the call site (adjust) passes theta_i[finite_i]
-        s = NS(n=n, m=m, j0=j0, k=k, sel=sel, bf=bf, th=th, Xf=x.Xf, DOT=z3.Function('DOT', I, I, R), G=z3.And(0 <= j0, j0 < k), R0=sel(j0))
+        s = NS(n=n, m=m, j0=j0, k=k, sel=sel, bf=bf, th=th, Xf=x.Xf, D0=z3.Function('DOTROW', I, R), G=z3.And(0 <= j0, j0 < k), R0=sel(j0))
         s.self = self_
         return s, (self_, self.IDX, theta_i, model), {}
 
     def requires(self, s):
-        return [s.n >= 0, s.m >= 0, dot_def(s.DOT, s.Xf, s.bf, s.n, s.m)]
+        # spec function: DOTROW(c) = sum_{c' < c} X(r,c') * coef_(c') along the row r = sel(j0) of the arbitrary output row j0, by its recursion equations
+        return [s.n >= 0, s.m >= 0, prefix_def(s.D0, s.m, lambda c: s.Xf(s.R0, c) * s.bf(c))]
 
     def hooks(self, s):
         def at_dot(vc, rec):
-            s.Z = dot_row_lemmas(vc, rec, s.G, s.j0, lambda c: s.Xf(s.R0, c), s.bf, s.m, lambda c: s.DOT(s.R0, c))
+            s.Z = dot_row_lemmas(vc, rec, s.G, s.j0, lambda c: s.Xf(s.R0, c), s.bf, s.m, s.D0)
         return {('np.sum', 0): at_dot}
 
     def ensures(self, s, result):
         if not isinstance(result, SArr) or result.ndim != 1 or not s.has('Z'):
             return [('the adjusted values form a vector computed with one dot product', z3.BoolVal(False))]
         return [('one adjusted value per finite row', result.shape[0] == s.k),
-                ('adjusted[j] = theta_i(r) - sum_c X(r,c) * coef_(c), r the j-th finite row', z3.Implies(s.G, result.at(s.j0) == s.th(s.R0) - s.DOT(s.R0, s.m))),
+                ('adjusted[j] = theta_i(r) - sum_c X(r,c) * coef_(c), r the j-th finite row', z3.Implies(s.G, result.at(s.j0) == s.th(s.R0) - s.D0(s.m))),
                 ('a draw whose simulated summaries equal the observed ones (X(r,:) = 0) is returned unchanged',
                  z3.Implies(z3.And(s.G, s.Z), result.at(s.j0) == s.th(s.R0)))]
 
@@ -934,7 +935,9 @@ class LemmaNormalise(Contract):
         ws = [z3.Real('w%d' % i) for i in range(self.M)]
         qs = [z3.Real('q%d' % i) for i in range(self.M)]
         Sn = z3.Real('S')
-        s = NS(ws=ws, qs=qs, Sn=Sn)
+        ks = [z3.Int('k%d' % i) for i in range(self.M)]
+        vc.fin_bounds.extend(ks)
+        s = NS(ws=ws, qs=qs, Sn=Sn, ks=ks)
         return s, (), {}
 
     def requires(self, s):
@@ -942,7 +945,69 @@ class LemmaNormalise(Contract):
 
     def ensures(self, s, result):
         return [('sum != 0: the quotients sum to one', use(stmt_normalise(s.ws, s.Sn, s.qs))),
-                ('non-negative weights with a positive sum: every quotient is in [0, 1]', use(stmt_unit_interval(s.ws, s.Sn, s.qs)))]
+                ('non-negative weights with a positive sum: every quotient is in [0, 1]', use(stmt_unit_interval(s.ws, s.Sn, s.qs))),
+                ('non-negative weights, one of them positive: the sum is positive', use(stmt_pos_sum(s.ws, s.Sn, s.ks)))]
+
+
+def stmt_pos_sum(ws, Sn, ks):
+    """S = sum w_i, w_i >= 0, w_i > 0 when count_i >= 1, some count_i >= 1  =>  S > 0   (linear; proved in isolation: LemmaNormalise)"""
+    hyp = z3.And([Sn == _bi.sum(ws[1:], ws[0])] + [z3.And(w >= 0, z3.Implies(k >= 1, w > 0)) for w, k in zip(ws, ks)] + [z3.Or([k >= 1 for k in ks])])
+    return hyp, Sn > 0
+
+
+def stmt_quot_of(A, w, Bt, Sn, q):
+    """A = w, B = S, q = w / S  =>  A / B = q   (congruence of division; FieldLemma)"""
+    return z3.And(A == w, Bt == Sn, q == w / Sn), A / Bt == q
+
+
+def stmt_quot_cong(w, pr, Sn, S, q):
+    """w = p, S' = S, q = w / S'  =>  q = p / S   (congruence of division; proved in isolation: FieldLemma)"""
+    return z3.And(w == pr, Sn == S, q == w / Sn), q == pr / S
+
+
+def stmt_weight_cong(k1, k2, sim, pri, w1, w2):
+    """equal counts give equal weights (congruence; FieldLemma)"""
+    return z3.And(k1 == k2, w1 == weight_term(k1, sim, pri), w2 == weight_term(k2, sim, pri)), w1 == w2
+
+
+def stmt_quot_eq(w1, S1, q1, w2, S2, q2):
+    """equal weights over equal normalisers give equal quotients (congruence; FieldLemma)"""
+    return z3.And(w1 == w2, S1 == S2, q1 == w1 / S1, q2 == w2 / S2), q1 == q2
+
+
+class FieldLemma(Contract):
+    """one-line facts of real arithmetic, each proved in isolation (no quantifier anywhere near) and used through explicit instances"""
+    target = '@verif/lemmas/c17_lemmas.py::lemma_field'
+    prop = 'C17'
+    fin = 4
+
+    def __init__(self, which):
+        self.which = which
+        self.label = which
+
+    def setup(self, vc):
+        Rs = lambda names: [z3.Real(n) for n in names.split()]
+        if self.which == 'quotient-congruence':
+            stmt = stmt_quot_cong(*Rs('w p Sn S q'))
+        elif self.which == 'quotient-of-equals':
+            stmt = stmt_quot_of(*Rs('A w B S q'))
+        elif self.which == 'weight-congruence':
+            k1, k2, sim = z3.Ints('k1 k2 n_sim')
+            vc.fin_bounds.extend([k1, k2, sim])
+            stmt = stmt_weight_cong(k1, k2, sim, z3.Real('prior'), z3.Real('w1'), z3.Real('w2'))
+        elif self.which == 'weight-congruence-no-priors':
+            k1, k2, sim = z3.Ints('k1 k2 n_sim')
+            vc.fin_bounds.extend([k1, k2, sim])
+            stmt = stmt_weight_cong(k1, k2, sim, None, z3.Real('w1'), z3.Real('w2'))
+        else:
+            stmt = stmt_quot_eq(*Rs('w1 S1 q1 w2 S2 q2'))
+        return NS(hyp=stmt[0], goal=stmt[1]), (), {}
+
+    def requires(self, s):
+        return [s.hyp]
+
+    def ensures(self, s, result):
+        return [(self.which, s.goal)]
 
 
 def cm_final_sum_hook(M, x, store, positive=True, argsort_ord=0, sum_ord=0):
@@ -968,7 +1033,7 @@ def cm_final_sum_hook(M, x, store, positive=True, argsort_ord=0, sum_ord=0):
         for j in range(M):
             vc.cut('unfold the sum of the %d unnormalised weights at %d' % (M, j), ps(j + 1) == ps(j) + arr.at(j))
         vc.cut('the normaliser computed by the code is S = sum of the w_i', T(rec['res']) == Sn)
-        store.append(NS(w=w, Sn=Sn, q=q, ks=ks, arr=arr, res=T(rec['res'])))
+        store.append(NS(w=w, Sn=Sn, q=q, ks=ks, arr=arr, res=T(rec['res']), pr=[weight_term(ks[i], x.sims[i], pri(i)) for i in range(M)], sims=list(x.sims), pri=[pri(i) for i in range(M)]))
         if not positive:
             return
         p = vc.libcalls['np.argsort'][argsort_ord]
@@ -985,7 +1050,9 @@ def cm_final_sum_hook(M, x, store, positive=True, argsort_ord=0, sum_ord=0):
             hyp, goal = stmt_weight_sign(ks[i], x.sims[i], pri(i), w[i])
             vc.assume(z3.Implies(hyp, goal))                         # LemmaWeightSign
             vc.cut('w_%d is non-negative, and positive when count_%d is' % (i, i), goal)
-        vc.cut('the normaliser is positive', Sn > 0)
+        hyp, goal = stmt_pos_sum(w, Sn, ks)
+        vc.assume(z3.Implies(hyp, goal))                             # LemmaNormalise (positive sum)
+        vc.cut('the normaliser is positive', goal)
     return h
 
 
@@ -994,7 +1061,18 @@ def cm_exit_steps(vc, nm, result, M, positive):
     if not isinstance(result, SArr) or result.ndim != 1:
         return
     for i in range(M):
+        hyp, goal = stmt_quot_of(nm.arr.at(i), nm.w[i], nm.res, nm.Sn, nm.q[i])
+        vc.assume(z3.Implies(hyp, goal))                             # FieldLemma quotient-of-equals
+        vc.cut('the code divides slot %d by the normaliser: that is the quotient q_%d = w_%d / S' % (i, i, i), goal)
         vc.cut('probability_%d is the quotient q_%d = w_%d / S' % (i, i, i), result.at(i) == nm.q[i])
+    S = nm.pr[0]
+    for t in nm.pr[1:]:
+        S = S + t
+    vc.cut('S is the sum of the weights p_i = count_i / n_sim_i * prior_i of the statement', nm.Sn == S)
+    for i in range(M):
+        hyp, goal = stmt_quot_cong(nm.w[i], nm.pr[i], nm.Sn, S, nm.q[i])
+        vc.assume(z3.Implies(hyp, goal))                             # FieldLemma quotient-congruence
+        vc.cut('q_%d = p_%d / sum_j p_j' % (i, i), goal)
     hyp, goal = stmt_normalise(nm.w, nm.Sn, nm.q)
     vc.assume(z3.Implies(hyp, goal))                                 # LemmaNormalise
     vc.cut('the quotients sum to one when S != 0', z3.Implies(nm.Sn != 0, goal))
@@ -1550,10 +1628,16 @@ class PermutedModels(Contract):
             cm_exit_steps(vc, n1, result[0], M, True)
             cm_exit_steps(vc, n2, result[1], M, True)
             for j in range(M):
-                vc.cut('model %d of the permuted list has the weight of model %d of the original list' % (j, perm[j]), z3.Implies(s.H, n2.w[j] == n1.w[perm[j]]))
+                i = perm[j]
+                hyp, goal = stmt_weight_cong(n2.ks[j], n1.ks[i], n1.sims[i], n1.pri[i], n2.w[j], n1.w[i])
+                vc.assume(z3.Implies(hyp, goal))                     # FieldLemma weight-congruence
+                vc.cut('model %d of the permuted list has the weight of model %d of the original list' % (j, i), z3.Implies(s.H, goal))
             vc.cut('the normaliser does not depend on the order', z3.Implies(s.H, n2.Sn == n1.Sn))
             for j in range(M):
-                vc.cut('model %d of the permuted list has the quotient of model %d of the original list' % (j, perm[j]), z3.Implies(s.H, n2.q[j] == n1.q[perm[j]]))
+                i = perm[j]
+                hyp, goal = stmt_quot_eq(n2.w[j], n2.Sn, n2.q[j], n1.w[i], n1.Sn, n1.q[i])
+                vc.assume(z3.Implies(hyp, goal))                     # FieldLemma quotient-equality
+                vc.cut('model %d of the permuted list has the quotient of model %d of the original list' % (j, i), z3.Implies(s.H, goal))
         return []
 
     def ensures(self, s, result):
@@ -1870,7 +1954,7 @@ class CompareModelsAnyM(Contract):
 
 CONTRACTS = [InputVariables(1), InputVariables(3), GetFinite(1), GetFinite(2), Pairs(2), Fit(1, True), Fit(2, False), Fit(1, False, refit=True),
              Adjust1(), Adjust(2), AdjustPosterior(1, 'linear'), AdjustPosterior(2, 'instance'),
-             LemmaSumExt(), LemmaZeroRow(), LemmaSignCancels(), LemmaScaleSum(), LemmaMonotoneCum(), LemmaWeightSign(True), LemmaWeightSign(False), LemmaNormalise(2), LemmaNormalise(3), CompareModelsAnyM(False), CompareModelsAnyM(True), LemmaChosen(True), LemmaChosen(False), LemmaCountsAgree(), LemmaReindex((1, 0)), LemmaReindex((1, 0, 2)), LemmaReindex((0, 2, 1)), PermutedModels((1, 0), True), PermutedModels((1, 0, 2), True), PermutedModels((0, 2, 1), False),
+             LemmaSumExt(), LemmaZeroRow(), LemmaSignCancels(), LemmaScaleSum(), LemmaMonotoneCum(), LemmaWeightSign(True), LemmaWeightSign(False), LemmaNormalise(2), LemmaNormalise(3), FieldLemma('quotient-congruence'), FieldLemma('quotient-of-equals'), FieldLemma('weight-congruence'), FieldLemma('weight-congruence-no-priors'), FieldLemma('quotient-equality'), CompareModelsAnyM(False), CompareModelsAnyM(True), LemmaChosen(True), LemmaChosen(False), LemmaCountsAgree(), LemmaReindex((1, 0)), LemmaReindex((1, 0, 2)), LemmaReindex((0, 2, 1)), PermutedModels((1, 0), True), PermutedModels((1, 0, 2), True), PermutedModels((0, 2, 1), False),
              CompareModels(2, False), CompareModels(2, True), CompareModels(3, False), CompareModels(3, True), CompareModels(3, True, guarded=True)]
 TRUSTED_BASE = ['sklearn.linear_model.LinearRegression (assumed library, recording stub): fit(X, y) returns the object itself and sets coef_ to the '
                 'least-squares slope of y on X with an intercept, one entry per column (sanity-tested against numpy.linalg.lstsq each run, '
